@@ -492,6 +492,9 @@ def np_call(ev, name, args, kwargs, node):
             return getitem(ev, as_v(ev, A[0]), as_v(ev, A[1]), node)                                   # np.take(a, i, axis=0) is a[i]
         if ax == Const(-1):
             return getitem(ev, as_v(ev, A[0]), Tup([Const(Ellipsis), as_v(ev, A[1])]), node)           # np.take(a, i, axis=-1) is a[..., i]
+        if isinstance(ax, Const) and isinstance(ax.value, int) and not isinstance(ax.value, bool) and 1 <= ax.value <= 3:
+            full = App("slice", (Const(None), Const(None), Const(None)))
+            return getitem(ev, as_v(ev, A[0]), Tup([full] * ax.value + [as_v(ev, A[1])]), node)         # np.take(a, i, axis=1) is a[:, i]
     if name == "insert" and len(A) == 3 and not kwargs:
         # np.insert(A, np.searchsorted(A, B), B): the sorted merge of B into the ascending array A — with B CAST TO A's dtype
         # (np.insert keeps the dtype of its first argument). As a value: sort(concat(A, cast(B))).
@@ -694,6 +697,8 @@ def np_call(ev, name, args, kwargs, node):
             guard = as_v(ev, kwargs.get("where", TRUE))
             ev.event("lib", callee="numpy.divide", args=[a, b, fill, guard, o], node=node)
             return mk_app("gdiv", [a, b, fill, guard])
+        if getattr(ev, "raw_float", False):
+            return ev.binop("Div", a, b, node)      # IEEE-exactness mode: the quotient stays as written
         return div(a, b)
     if name in ("add", "subtract", "multiply"):
         a, b = as_v(ev, arg(0)), as_v(ev, arg(1))
@@ -701,11 +706,16 @@ def np_call(ev, name, args, kwargs, node):
             root = storage_root(as_v(ev, kwargs["out"]))
             if root is not None:
                 ev.event("inplace", how="out=", root=root, target="out", node=node, value=kwargs["out"])
+        if getattr(ev, "raw_float", False):
+            return ev.binop({"add": "Add", "subtract": "Sub", "multiply": "Mult"}[name], a, b, node)
         r = {"add": add, "subtract": sub, "multiply": mul}[name](a, b)
         return ev.int_product(r, a, b, node) if name == "multiply" else r
     if name == "count_nonzero" and A and is_boolish(as_v(ev, A[0])):
         # the number of True entries of a boolean array is its sum
         return np_call(ev, "sum", [A[0]] + list(A[1:]), dict(kwargs), node)
+    if name in ("not_equal", "equal", "less", "less_equal", "greater", "greater_equal") and len(A) == 2 and not kwargs:
+        # the ufunc forms of the comparison operators
+        return ev.compare({"not_equal": "NotEq", "equal": "Eq", "less": "Lt", "less_equal": "LtE", "greater": "Gt", "greater_equal": "GtE"}[name], A[0], A[1], node)
     if name in ("logical_and", "logical_or") and len(A) == 2 and not kwargs:
         x0, x1 = as_v(ev, A[0]), as_v(ev, A[1])
         if is_boolish(x0) and is_boolish(x1):
@@ -963,6 +973,10 @@ def call_ext(ev, dotted, args, kwargs, node):
             return getitem(ev, args[0], args[1], node)
         if fn == "truth" and len(args) == 1:
             return ev.truth(args[0])
+        if fn in ("methodcaller", "attrgetter", "itemgetter") and args and all(isinstance(a, Const) and isinstance(a.value, (str, int)) for a in args[:1]):
+            from .evalr import OperatorV
+            if fn == "methodcaller" or (len(args) == 1 and not kwargs):
+                return OperatorV(fn, args[0].value, args[1:], kwargs)
     if dotted in ("copy.copy", "copy.deepcopy") and len(args) >= 1:
         from .evalr import Obj
         src = args[0]
@@ -1436,6 +1450,8 @@ def getitem(ev, base, idx, node=None):
 
     if isinstance(base, Obj) and getattr(base, "nt_fields", None) is not None and is_const(idx) and isinstance(const_of(idx), int):
         return base.attrs[base.nt_fields[const_of(idx)]]
+    if isinstance(base, App) and base.fn == "shape" and len(base.args) == 1 and idx == Const(0):
+        return length(ev, base.args[0])          # x.shape[0] is len(x)
     if isinstance(base, Obj):
         m = base.cls.find_method("__getitem__")
         if m is not None:
